@@ -23,6 +23,10 @@ WHAT IS PROVED ON THE REAL CODE
  * lemmas: the reference respects the two legitimate variants (bold-bright, denotation), which composes the
    per-call clause into "equal to the reference after any sequence of SGR parameter lists".
  * reverse_attrspec / reverse_video: standout set / cleared, nothing else; every cell of the grid.
+ * content: the rows shown -- the last `scrolling_up` rows of the scroll-back, then the top of the grid, each exactly
+   `width` cells (scroll / scroll_buffer / resize, which fill the scroll-back and clamp the offset: C15_vterm.py).
+ Defect found while writing these clauses and fixed in /repo since (the clause failed, replayed natively): csi_set_attr
+ reset the rendition whenever the LAST parameter was 0, also when that 0 was the argument of 38;5;N / 48;5;N / 38;2;r;g;b.
 
 TRUSTED (assumed contracts, each cross-checked against the real classes on every run by static checks):
  the TEXT CODEC of AttrSpec — which bit word `AttrSpec(fg_text, bg_text, colors)` builds for the texts vterm produces
@@ -35,15 +39,14 @@ TRUSTED (assumed contracts, each cross-checked against the real classes on every
 """
 import z3
 
-from contracts.C15_vterm import CELL, CHARSET, GI, KIND, MODES, TERM, VT, cell, cell_eq, grid_shape, rows_of, same_value
-from contracts.C18_colours import ATTRSPEC, ATTRSPEC_ERROR, BG, DC, FG, GETTERS, LAYOUT, SPEC, WORD, BitWord, WordShape, bg_number, bit_index, colors_spec, fg_number, flag, real_const, wf, word
+from contracts.C15_vterm import CHARSET, GI, MODES, TERM, VT, cell, rows_of, same_value
+from contracts.C18_colours import ATTRSPEC, ATTRSPEC_ERROR, BG, DC, FG, GETTERS, LAYOUT, SPEC, WORD, BitWord, bg_number, bit_index, colors_spec, fg_number, flag, real_const, wf, word
 from pyvc import seqs as Q
 from pyvc import values as V
 from pyvc.api import *
 from pyvc.api import REGISTRY
 from pyvc.engine import PyRaise, SExc
 from pyvc.seqs import ModelObj
-from pyvc.shapes import Shape
 from pyvc.values import SBool, SInt, SOpaque, SOpt, cur, mk_bool, mk_int
 from urwid import vterm as _vt
 
@@ -663,7 +666,16 @@ def text_concrete(d):
     return real_const({D_P256: "_color_desc_256", D_TRUE: "_color_desc_true", D_P88: "_color_desc_88"}[k])(n)
 
 
+_codec_verdict = []
+
+
 def _xcheck_codec():
+    if not _codec_verdict:
+        _codec_verdict.append(_xcheck_codec_run())
+    return _codec_verdict[0]
+
+
+def _xcheck_codec_run():
     """The codec model (enc_word / fg_text_of / bg_text_of / copy_modified, and the str operations on the abstract
     texts) against the real AttrSpec and real strs."""
     import itertools
